@@ -617,6 +617,15 @@ func (ts *TableState) findByIndex(x *Exec, idxPos int, vals []*smt.Term) (*smt.T
 }
 
 func (ts *TableState) write(x *Exec, pk []*smt.Term, exists bool, leaves []*smt.Term) {
+	if x.Cfg.Debug {
+		fmt.Printf("WRITE %s exists=%v\n", ts.Meta.Name, exists)
+		for i, t := range pk {
+			fmt.Printf("   pk[%d] = %s\n", i, t.StringN(300))
+		}
+		for j, t := range leaves {
+			fmt.Printf("   %s = %s\n", ts.Schema[j].Name, t.StringN(300))
+		}
+	}
 	ts.touch(x, pk)
 	ts.Log = append(ts.Log, &LogEntry{PK: pk, Exists: exists, Leaves: leaves})
 }
